@@ -323,7 +323,7 @@ def parse_dfxp(text):
         if el.get(xmlid) is not None:
             doc["ids"].append(el.get(xmlid))
         if el.tag not in (_q(TTML, "style"),) or True:
-            if el.get("style") is not None and not (head is not None and el in head.iter()):
+            if el.get("style") is not None:
                 doc["style_refs"].append(el.get("style"))
             if el.get("region") is not None:
                 doc["region_refs"].append(el.get("region"))
